@@ -123,12 +123,23 @@ def tooLong (s : CSt) : CSt := { setError s "headerTooLong" with headerReceived 
     `connection_lost(exc)`, which hands the exception to the caller -/
 def crash (s : CSt) : CSt := { setError s "headerUtf8" with crashed := true }
 
+/-- `_deliver_header_only`: a non-success response is complete with its header - the call is resolved at once
+    (fix 8049c3f: before, it was resolved by `connection_lost`, i.e. after the TLS teardown, whose outcome
+    depended on what else the server sent and when) -/
+def deliverHeader (s : CSt) : CSt :=
+  if s.fut = .pending then
+    match s.status with
+    | some st => { s with fut := .response st s.mta none false }
+    | none => s
+  else s
+
 /-- after `_parse_header`: close on a parse failure or a non-2x status (and look at nothing else of
-    this read); otherwise the size cap applies to the body so far -/
+    this read) - a valid non-2x header is the whole response and is delivered here; otherwise the size cap
+    applies to the body so far -/
 def afterHeader (s : CSt) : CSt :=
   match s.status with
   | none => { s with closeReq := true }
-  | some st => if 20 ≤ st ∧ st < 30 then capCheck s else { s with closeReq := true }
+  | some st => if 20 ≤ st ∧ st < 30 then capCheck s else { deliverHeader s with closeReq := true }
 
 /-- the buffer holds a complete header line ending at index `i` -/
 def onHeader (env : Env) (s : CSt) (i : Nat) : CSt :=
@@ -231,13 +242,16 @@ theorem parseHeader_keep (s : CSt) (l : Bytes) (h : s.fut ≠ .pending) :
       · rfl
       · exact setError_keep _ _ h
 
+theorem deliverHeader_keep (s : CSt) (h : s.fut ≠ .pending) : (deliverHeader s).fut = s.fut := by
+  unfold deliverHeader; rw [if_neg h]
+
 theorem afterHeader_keep (s : CSt) (h : s.fut ≠ .pending) : (afterHeader s).fut = s.fut := by
   unfold afterHeader
   split
   · rfl
   · split
     · exact capCheck_keep s h
-    · rfl
+    · exact deliverHeader_keep s h
 
 theorem onHeader_keep (env : Env) (s : CSt) (i : Nat) (h : s.fut ≠ .pending) : (onHeader env s i).fut = s.fut := by
   unfold onHeader
@@ -335,13 +349,29 @@ theorem parseHeader_inv (s : CSt) (l : Bytes) (hs : s.status = none) : StatusInv
       · intro st' _ h2
         exact absurd h2 (setError_pending _ _)
 
+theorem deliverHeader_status (s : CSt) : (deliverHeader s).status = s.status := by
+  unfold deliverHeader; split
+  · split <;> rfl
+  · rfl
+
+theorem deliverHeader_header (s : CSt) : (deliverHeader s).headerReceived = s.headerReceived := by
+  unfold deliverHeader; split
+  · split <;> rfl
+  · rfl
+
+theorem deliverHeader_pending (s : CSt) (h : (deliverHeader s).fut = .pending) : s.fut = .pending := by
+  unfold deliverHeader at h
+  split at h
+  · assumption
+  · exact h
+
 theorem afterHeader_status (s : CSt) : (afterHeader s).status = s.status := by
   unfold afterHeader
   split
   · rfl
   · split
     · exact capCheck_status s
-    · rfl
+    · exact deliverHeader_status s
 
 theorem afterHeader_header (s : CSt) : (afterHeader s).headerReceived = s.headerReceived := by
   unfold afterHeader
@@ -349,7 +379,7 @@ theorem afterHeader_header (s : CSt) : (afterHeader s).headerReceived = s.header
   · rfl
   · split
     · exact capCheck_header s
-    · rfl
+    · exact deliverHeader_header s
 
 theorem afterHeader_pending (s : CSt) (h : (afterHeader s).fut = .pending) : s.fut = .pending := by
   unfold afterHeader at h
@@ -357,7 +387,7 @@ theorem afterHeader_pending (s : CSt) (h : (afterHeader s).fut = .pending) : s.f
   · exact h
   · split at h
     · exact capCheck_pending s h
-    · exact h
+    · exact deliverHeader_pending s h
 
 /-- invariant of every step: status in range while pending; no status before the header -/
 def Inv (s : CSt) : Prop := StatusInv s ∧ (s.headerReceived = false → s.status = none)
@@ -437,7 +467,7 @@ theorem run_inv (env : Env) (evs : List CEv) :
     StatusInv (crun env evs) ∧ ((crun env evs).headerReceived = false → (crun env evs).status = none) :=
   run_inv_from env _ evs (init_inv true)
 
-/-! ### `data_received` only ever sets errors -/
+/-! ### where a response comes from -/
 def NoResp (f : Fut) : Prop := f = .pending ∨ ∃ k, f = .error k
 
 theorem setError_noResp (s : CSt) (k : String) (h : NoResp s.fut) : NoResp (setError s k).fut := by
@@ -460,43 +490,72 @@ theorem parseHeader_noResp (s : CSt) (l : Bytes) (h : NoResp s.fut) : NoResp (pa
       · exact h
       · exact setError_noResp _ _ h
 
-theorem afterHeader_noResp (s : CSt) (h : NoResp s.fut) : NoResp (afterHeader s).fut := by
+/-- a response, once there, agrees with the parsed status and meta, carries a body exactly for 2x, and that body
+    is the buffer (the bytes received after the header line) -/
+def RespOk (s : CSt) : Prop :=
+  ∀ st m b d, s.fut = .response st m b d →
+    s.status = some st ∧ m = s.mta ∧ (b ≠ none ↔ (20 ≤ st ∧ st < 30)) ∧ (∀ x, b = some x → x = s.buf)
+
+theorem respOk_of_noResp (s : CSt) (h : NoResp s.fut) : RespOk s := by
+  intro st m b d hf
+  rcases h with h | ⟨k, h⟩ <;> rw [h] at hf <;> cases hf
+
+/-- `data_received` produces a response only for a non-2x header, and then without a body -/
+theorem afterHeader_respOk (q : CSt) (h : NoResp q.fut) : RespOk (afterHeader q) := by
   unfold afterHeader
   split
-  · exact h
-  · split
-    · exact capCheck_noResp s h
-    · exact h
+  · exact respOk_of_noResp _ h
+  · rename_i st hst
+    split
+    · exact respOk_of_noResp _ (capCheck_noResp q h)
+    · rename_i hn2x
+      rcases h with h | ⟨k, h⟩
+      · intro st' m b d hf
+        simp only [deliverHeader, h, if_true, hst, Fut.response.injEq] at hf
+        obtain ⟨rfl, rfl, rfl, _⟩ := hf
+        exact ⟨by simp [deliverHeader, h, hst], by simp [deliverHeader, h, hst], by simpa using hn2x, fun x hx => by simp at hx⟩
+      · refine respOk_of_noResp _ (Or.inr ⟨k, ?_⟩)
+        simp [deliverHeader, h]
 
-theorem onData_noResp (env : Env) (s : CSt) (c : Bytes) (h : NoResp s.fut) : NoResp (onData env s c).fut := by
+theorem onData_respOk (env : Env) (s : CSt) (c : Bytes) (h : NoResp s.fut) : RespOk (onData env s c) := by
   unfold onData
   split
-  · exact h
+  · exact respOk_of_noResp _ h
   · split
-    · exact capCheck_noResp _ h
+    · exact respOk_of_noResp _ (capCheck_noResp _ h)
     · split
       · split
-        · exact setError_noResp _ _ h
-        · exact capCheck_noResp _ h
+        · exact respOk_of_noResp _ (setError_noResp _ _ h)
+        · exact respOk_of_noResp _ (capCheck_noResp _ h)
       · split
-        · exact setError_noResp _ _ h
+        · exact respOk_of_noResp _ (setError_noResp _ _ h)
         · unfold onHeader
           split
-          · exact afterHeader_noResp _ (parseHeader_noResp _ _ h)
-          · exact setError_noResp _ _ h
+          · exact afterHeader_respOk _ (parseHeader_noResp _ _ h)
+          · exact respOk_of_noResp _ (setError_noResp _ _ h)
 
-/-- a response is produced only by `connection_lost`, from the status parsed earlier; it carries a body
-    exactly for 2x, and that body is the buffer (the bytes received after the header line) -/
-theorem response_origin (env : Env) (s : CSt) (ev : CEv) (hp : s.fut = .pending) (st : Nat) (m : Bytes) (b : Option Bytes) (d : Bool)
-    (h : (cstep env s ev).fut = .response st m b d) :
-    s.status = some st ∧ m = s.mta ∧ (b ≠ none ↔ (20 ≤ st ∧ st < 30)) ∧ (∀ x, b = some x → x = s.buf) := by
+/-- a response is produced by `data_received` only for a non-2x header (without body), and by `connection_lost`
+    from the status parsed earlier (with the buffer as body exactly for 2x) -/
+theorem response_origin (env : Env) (s : CSt) (ev : CEv) (hp : s.fut = .pending) : RespOk (cstep env s ev) := by
   cases ev with
-  | data c =>
-    exfalso
-    rcases onData_noResp env s c (Or.inl hp) with h1 | ⟨k, h1⟩
-    · simp only [cstep] at h; rw [h1] at h; cases h
-    · simp only [cstep] at h; rw [h1] at h; cases h
+  | data c => exact onData_respOk env s c (Or.inl hp)
   | lost e =>
+    intro st m b d h
+    have hs : (cstep env s (.lost e)).status = s.status ∧ (cstep env s (.lost e)).mta = s.mta ∧ (cstep env s (.lost e)).buf = s.buf := by
+      simp only [cstep, onLost, hp, ne_eq, not_true_eq_false, if_false]
+      unfold resolve
+      split
+      · exact ⟨rfl, rfl, rfl⟩
+      · split
+        · exact ⟨rfl, rfl, rfl⟩
+        · split
+          · exact ⟨rfl, rfl, rfl⟩
+          · split
+            · unfold deliver; split
+              · split <;> exact ⟨rfl, rfl, rfl⟩
+              · exact ⟨rfl, rfl, rfl⟩
+            · exact ⟨rfl, rfl, rfl⟩
+    rw [hs.1, hs.2.1, hs.2.2]
     simp only [cstep, onLost] at h
     split at h
     · rename_i hn; exact absurd hp hn
